@@ -20,6 +20,8 @@ struct Gen<'a, R: RoleType, T: IsPacketId> {
     focus: u8,                   // bias of this walk (0 mixed, 1 qos, 2 alias, 3 timers, 4 ids/limits, 5 garbage)
     legal: bool,                 // the application respects the API contract (ids, timers, close)
     started: bool,               // a connection was started in this trace
+    force_clean: Option<bool>,   // next handshake: clean start forced on/off
+    force_ok: bool,              // next handshake completes successfully (no refusal, always answered)
 }
 
 impl<'a, R: RoleType, T: IsPacketId> Gen<'a, R, T> {
@@ -119,20 +121,26 @@ impl<'a, R: RoleType, T: IsPacketId> Gen<'a, R, T> {
 
     fn handshake(&mut self) {
         self.started = true;
-        let clean = self.rng.chance(1, 2);
+        let clean = self.force_clean.unwrap_or_else(|| self.rng.chance(1, 2));
+        let force_ok = self.force_ok;
         if self.acts_as_client() {
             let v = self.ver();
             let ps = self.conn_props(false);
             let ka = self.ka();
             self.op(format!("send {} {}", v, hex(&w_connect(v, clean, ka, b"cid", &ps))));
-            if self.rng.chance(9, 10) {
-                let sp = !clean && self.rng.chance(2, 3);
-                let rc = if self.rng.chance(9, 10) { 0 } else { *self.rng.pick(&[1u8, 2, 5, 0x80, 0x87]) };
+            if force_ok || self.rng.chance(9, 10) {
+                let sp = !clean && (force_ok || self.rng.chance(2, 3));
+                let rc = if force_ok || self.rng.chance(9, 10) { 0 } else { *self.rng.pick(&[1u8, 2, 5, 0x80, 0x87]) };
                 let ps = self.conn_props(true);
                 if let Some(P::U32(_, m)) = ps.iter().find(|p| matches!(p, P::U32(39, _))) {
                     self.peer_mps = Some(*m);
                 }
-                self.recv(w_connack(v, sp, rc, &ps));
+                let b = w_connack(v, sp, rc, &ps);
+                if force_ok {
+                    self.op(format!("recv {}", hex(&b)));
+                } else {
+                    self.recv(b);
+                }
             }
         } else {
             let v = self.ver();
@@ -141,16 +149,20 @@ impl<'a, R: RoleType, T: IsPacketId> Gen<'a, R, T> {
                 self.peer_mps = Some(*m);
             }
             let ka = self.ka();
-            let lvl = if self.rng.chance(1, 25) { *self.rng.pick(&[3u8, 6, 0]) } else { v };
+            let lvl = if !force_ok && self.rng.chance(1, 25) { *self.rng.pick(&[3u8, 6, 0]) } else { v };
             let mut bytes = w_connect(v, clean, ka, b"cid", &ps);
             if lvl != v {
                 bytes[8] = lvl;
             }
-            self.recv(bytes);
-            if self.rng.chance(9, 10) {
+            if force_ok {
+                self.op(format!("recv {}", hex(&bytes)));
+            } else {
+                self.recv(bytes);
+            }
+            if force_ok || self.rng.chance(9, 10) {
                 let v = self.ver();
-                let sp = !clean && self.rng.chance(2, 3);
-                let rc = if self.rng.chance(9, 10) { 0 } else { *self.rng.pick(&[1u8, 2, 5, 0x80, 0x87]) };
+                let sp = !clean && (force_ok || self.rng.chance(2, 3));
+                let rc = if force_ok || self.rng.chance(9, 10) { 0 } else { *self.rng.pick(&[1u8, 2, 5, 0x80, 0x87]) };
                 let ps = self.conn_props(true);
                 self.op(format!("send {} {}", v, hex(&w_connack(v, sp, rc, &ps))));
             }
@@ -660,7 +672,10 @@ impl<'a, R: RoleType, T: IsPacketId> Gen<'a, R, T> {
     }
 }
 
-fn walk<R: RoleType, T: IsPacketId>(role: &'static str, ver: u8, steps: usize, rng: &mut Rng, name: &str, out: &mut dyn Write) -> bool {
+fn walk<R: RoleType, T: IsPacketId>(role: &'static str, ver: u8, steps: usize, rng: &mut Rng, name: &str, out: &mut dyn Write, mode: u8) -> bool {
+    if mode == 1 {
+        return reuse_trial::<R, T>(role, ver, steps, rng, name, out);
+    }
     let focus = rng.below(6) as u8;
     let legal = !rng.chance(1, 8);
     let mut g = Gen::<R, T> {
@@ -676,6 +691,8 @@ fn walk<R: RoleType, T: IsPacketId>(role: &'static str, ver: u8, steps: usize, r
         focus,
         legal,
         started: false,
+        force_clean: None,
+        force_ok: false,
     };
     // options
     for f in ["off", "apr", "aping", "amap", "arep"] {
@@ -711,9 +728,163 @@ fn walk<R: RoleType, T: IsPacketId>(role: &'static str, ver: u8, steps: usize, r
     g.s.dead
 }
 
+/// the op strings of trace lines (consecutive `recv` calls on one buffer are one op)
+fn ops_of(lines: &[String]) -> Vec<String> {
+    let mut ops = vec![];
+    let mut last_rest: Option<Vec<u8>> = None;
+    for l in lines {
+        let rest = l.strip_prefix("X ").unwrap_or(l);
+        let op = rest.split(" | ").next().unwrap().to_string();
+        if let Some(hx) = op.strip_prefix("recv ") {
+            let inp = crate::rng::unhex(hx.trim());
+            let is_cont = last_rest.as_ref().map(|r| *r == inp).unwrap_or(false);
+            let cons: usize = rest.split(" | ").nth(1).and_then(|o| o.split_whitespace().find_map(|x| x.strip_prefix("cons="))).and_then(|x| x.parse().ok()).unwrap_or(inp.len());
+            last_rest = Some(inp[cons.min(inp.len())..].to_vec());
+            if is_cont {
+                continue;
+            }
+        } else {
+            last_rest = None;
+        }
+        ops.push(op);
+    }
+    ops
+}
+
+/// C10: history H on one object, transport closed, then a script S that starts a NEW session,
+/// run on the reused object and on a fresh object with the same options; the fresh object's
+/// trace carries, after every call, a `Y` line with what the reused object answered.
+fn reuse_trial<R: RoleType, T: IsPacketId>(role: &'static str, ver: u8, steps: usize, rng: &mut Rng, name: &str, out: &mut dyn Write) -> bool {
+    let focus = rng.below(6) as u8;
+    let mut g = Gen::<R, T> {
+        s: Sess::new(ver), rng, role, my_ids: vec![], inflight: vec![], rel_wait: vec![], peer_pubs: vec![], subs: vec![],
+        peer_mps: None, focus, legal: true, started: false, force_clean: None, force_ok: false,
+    };
+    for f in ["off", "apr", "aping", "amap", "arep"] {
+        if g.rng.chance(2, 5) {
+            g.op(format!("set {f} 1"));
+        }
+    }
+    if g.rng.chance(1, 3) {
+        let t = *g.rng.pick(&[1000u64, 3000]);
+        g.op(format!("rto {t}"));
+    }
+    if g.rng.chance(1, 4) {
+        let t = *g.rng.pick(&["0", "700"]);
+        g.op(format!("interval {t}"));
+    }
+    // H: the first connection (any traffic), ended by a close report
+    let hsteps = 4 + g.rng.below(steps as u64 / 2) as usize;
+    for _ in 0..hsteps {
+        if g.s.dead {
+            break;
+        }
+        g.step();
+    }
+    if !g.s.dead && g.rng.chance(1, 3) {
+        // leave a half-received frame behind
+        let b = w_publish(if g.ver() == 0 { 5 } else { g.ver() }, g.pw(), 1, false, false, b"a", 1, &[], b"payload");
+        g.op(format!("recv {}", hex(&b[..b.len() - 3])));
+    }
+    g.op("closed".into());
+    if g.s.dead {
+        // not a C10 case; emit the plain trace
+        writeln!(out, "T conn {name} role={role} pw={} ver={ver} legal=1", g.s.pw).unwrap();
+        for l in &g.s.out_lines {
+            writeln!(out, "{l}").unwrap();
+        }
+        writeln!(out, "END").unwrap();
+        return true;
+    }
+    let i0 = g.s.out_lines.len();
+    let opt = |g: &Gen<R, T>, k: &str| g.s.field(k);
+    let options: Vec<String> = vec![
+        format!("set off {}", opt(&g, "off")),
+        format!("set apr {}", opt(&g, "apr")),
+        format!("set aping {}", opt(&g, "aping")),
+        format!("set amap {}", opt(&g, "amap")),
+        format!("set arep {}", opt(&g, "arep")),
+        format!("interval {}", opt(&g, "user")),
+        format!("rto {}", opt(&g, "pto")),
+    ];
+    // S: start a new session (clean start, accepted), then any traffic
+    g.my_ids.clear();
+    g.inflight.clear();
+    g.rel_wait.clear();
+    g.peer_pubs.clear();
+    g.subs.clear();
+    g.force_clean = Some(true);
+    g.force_ok = true;
+    g.handshake();
+    g.force_clean = None;
+    g.force_ok = false;
+    // the script must really have started a new session (an undetermined object acting as a
+    // client cannot; a CONNECT may be refused): otherwise this is an ordinary trace
+    let started_new = g.s.out_lines[i0..].iter().any(|l| {
+        let f: Vec<&str> = l.split(" | ").collect();
+        f.len() == 5 && (f[2].contains("send{k=1,") || f[2].contains("recv{k=1,")) && f[2].contains(",cl=1,")
+    }) && g.status() != "D";
+    if !started_new {
+        writeln!(out, "T conn {name} role={role} pw={} ver={ver} legal=1", g.s.pw).unwrap();
+        for l in &g.s.out_lines {
+            writeln!(out, "{l}").unwrap();
+        }
+        writeln!(out, "END").unwrap();
+        return g.s.dead;
+    }
+    for _ in 0..(steps / 2).max(6) {
+        if g.s.dead {
+            break;
+        }
+        g.step();
+    }
+    let a_lines: Vec<String> = g.s.out_lines[i0..].to_vec();
+    let s_ops = ops_of(&a_lines);
+    let pw = g.s.pw;
+    writeln!(out, "T conn {name}-reused role={role} pw={pw} ver={ver} legal=1").unwrap();
+    for l in &g.s.out_lines {
+        writeln!(out, "{l}").unwrap();
+    }
+    writeln!(out, "END").unwrap();
+    // the fresh object (constructed with the same version argument)
+    let mut b = Sess::<R, T>::new(ver);
+    for o in &options {
+        b.apply(o);
+    }
+    let j0 = b.out_lines.len();
+    for o in &s_ops {
+        b.apply(o);
+        if b.dead {
+            break;
+        }
+    }
+    writeln!(out, "T conn {name}-fresh role={role} pw={pw} ver={ver} legal=1").unwrap();
+    for (j, l) in b.out_lines.iter().enumerate() {
+        writeln!(out, "{l}").unwrap();
+        if j >= j0 {
+            let f: Vec<&str> = a_lines.get(j - j0).map(|x| x.split(" | ").collect()).unwrap_or_default();
+            if f.len() == 5 {
+                writeln!(out, "Y {} | {} | {} | {}", f[0].strip_prefix("X ").unwrap_or(f[0]), f[2], f[3], f[4]).unwrap();
+            } else {
+                writeln!(out, "Y - | MISSING | - | -").unwrap();
+            }
+        }
+    }
+    if a_lines.len() > b.out_lines.len() - j0 {
+        writeln!(out, "Y - | EXTRA {} | - | -", a_lines.len() - (b.out_lines.len() - j0)).unwrap();
+    }
+    writeln!(out, "END").unwrap();
+    g.s.dead || b.dead
+}
+
 pub fn generate(tier: &str, seed: u64, args: &[String], out: &mut dyn Write) {
     let mut rng = Rng::new(seed ^ 0xC0FFEE);
     let thorough = tier == "thorough";
+    let mode: u8 = match args.first().map(|s| s.as_str()) {
+        Some("reuse") => 1,
+        _ => 0,
+    };
+    let args: &[String] = if mode != 0 { &args[1..] } else { args };
     let traces = args.first().and_then(|s| s.parse().ok()).unwrap_or(if thorough { 6000 } else { 700 });
     let steps = if thorough { 60 } else { 40 };
     let mut panics = 0;
@@ -721,18 +892,18 @@ pub fn generate(tier: &str, seed: u64, args: &[String], out: &mut dyn Write) {
         let cfg = rng.below(14);
         let name = format!("w{seed}-{i}");
         let dead = match cfg {
-            0 | 1 => walk::<Client, u16>("client", 5, steps, &mut rng, &name, out),
-            2 => walk::<Client, u16>("client", 4, steps, &mut rng, &name, out),
-            3 | 4 => walk::<Server, u16>("server", 5, steps, &mut rng, &name, out),
-            5 => walk::<Server, u16>("server", 4, steps, &mut rng, &name, out),
-            6 => walk::<Server, u16>("server", 0, steps, &mut rng, &name, out),
-            7 => walk::<Any, u16>("any", 5, steps, &mut rng, &name, out),
-            8 => walk::<Any, u16>("any", 4, steps, &mut rng, &name, out),
-            9 => walk::<Any, u16>("any", 0, steps, &mut rng, &name, out),
-            10 => walk::<Client, u32>("client", 5, steps, &mut rng, &name, out),
-            11 => walk::<Server, u32>("server", 5, steps, &mut rng, &name, out),
-            12 => walk::<Server, u32>("server", 0, steps, &mut rng, &name, out),
-            _ => walk::<Client, u32>("client", 4, steps, &mut rng, &name, out),
+            0 | 1 => walk::<Client, u16>("client", 5, steps, &mut rng, &name, out, mode),
+            2 => walk::<Client, u16>("client", 4, steps, &mut rng, &name, out, mode),
+            3 | 4 => walk::<Server, u16>("server", 5, steps, &mut rng, &name, out, mode),
+            5 => walk::<Server, u16>("server", 4, steps, &mut rng, &name, out, mode),
+            6 => walk::<Server, u16>("server", 0, steps, &mut rng, &name, out, mode),
+            7 => walk::<Any, u16>("any", 5, steps, &mut rng, &name, out, mode),
+            8 => walk::<Any, u16>("any", 4, steps, &mut rng, &name, out, mode),
+            9 => walk::<Any, u16>("any", 0, steps, &mut rng, &name, out, mode),
+            10 => walk::<Client, u32>("client", 5, steps, &mut rng, &name, out, mode),
+            11 => walk::<Server, u32>("server", 5, steps, &mut rng, &name, out, mode),
+            12 => walk::<Server, u32>("server", 0, steps, &mut rng, &name, out, mode),
+            _ => walk::<Client, u32>("client", 4, steps, &mut rng, &name, out, mode),
         };
         if dead {
             panics += 1;
